@@ -105,7 +105,7 @@ SQL_NAMES = {
     "add_unique_id_and_source_dataset_cols_if_needed", "predict", "deterministic_link", "_self_link",
     "block_from_labels", "_join_new_table_to_df_concat_with_tf_sql", "table_exists_in_database",
     "delete_table_from_database", "concat_table_column_names", "_table_to_splink_dataframe",
-    "compute_tf_table", "validate",
+    "compute_tf_table", "validate", "enqueue_df_concat", "enqueue_df_concat_with_tf",
 }
 SQL_ATTRS = {"columns", "columns_escaped"}
 
@@ -118,7 +118,7 @@ PURE_NAMES = {
     "median", "issubset", "intersection", "join", "format", "get", "items", "keys", "values", "lower", "replace",
     "info", "warning", "debug", "log", "time", "cpu_count", "to_dict", "unquote",
     # Splink SQL-text generators and lookups
-    "enqueue_df_concat", "enqueue_df_concat_with_tf", "enqueue_sql", "enqueue_list_of_sqls", "append_input_dataframe",
+    "enqueue_sql", "enqueue_list_of_sqls", "append_input_dataframe",
     "block_using_rules_sqls", "blocking_rule_to_obj", "compute_comparison_vector_values_from_id_pairs_sqls",
     "compute_comparison_vector_values_sql", "compute_new_parameters_sql", "compute_proportions_for_new_parameters",
     "predict_from_comparison_vectors_sqls_using_settings", "predict_from_comparison_vectors_sqls",
